@@ -325,6 +325,10 @@ class ParseSuite:
             return None
         v = out["ok"]
         if fn == "parse_peal_speed":
+            core = s.strip()
+            core = core[:-1] if core.endswith("m") else core
+            if "m" in core:
+                return f"peal speed {s!r} was accepted (as {v} minutes) although an 'm' may only be its last character"
             m = re.fullmatch(r"\s*(\d+)\s*h\s*(\d*)\s*m?\s*", s)
             if m and v != int(m.group(1)) * 60 + int(m.group(2) or 0):
                 return f"peal speed {s!r} parsed to {v} minutes"
